@@ -136,6 +136,7 @@ def run(ctx):
     wiring(ctx, p, K)
     decorator(ctx, p)
     iterate(ctx, p, K)
+    level_advance(ctx, p)
 
 
 def wiring(ctx, p, K):
@@ -338,6 +339,55 @@ def iterate(ctx, p, K):
         ctx.ob(rule, m.key + ":level", good, where=m, node=calls[0] if calls else m.node, construct=norm_text(rets[0].value) if rets else "", message="level value = binned func(over-sampled grid), in native form")
 
 
+def level_advance(ctx, p):
+    """the comparison is always with the PREVIOUS level: at the end of each iteration the `lower` array / mask become this iteration's `higher` ones"""
+    rule = "C09.iterate"
+    m = p.cls("autoarray.operators.over_sampling.iterate:OverSamplerIterate").lookup("array_via_func_from")
+    if m is None:
+        raise AnchorMissing("OverSamplerIterate.array_via_func_from")
+    loops = [n for n in m.node.body if isinstance(n, ast.For)]
+    if len(loops) != 1:
+        ctx.ob(rule, m.key + ":levels", None, message=f"expected one loop over the sub-size schedule, found {len(loops)}")
+        return
+    loop = loops[0]
+    ok_sched = norm_text(loop.iter) == "self.sub_steps[:-1]"
+    calls = {}
+    for n in ast.walk(loop):
+        if isinstance(n, ast.Call):
+            nm = n.func.attr if isinstance(n.func, ast.Attribute) else (n.func.id if isinstance(n.func, ast.Name) else None)
+            if nm in ("threshold_mask_from", "iterated_array_jit_from", "array_at_sub_size_from"):
+                calls[nm] = n
+    if set(calls) != {"threshold_mask_from", "iterated_array_jit_from", "array_at_sub_size_from"}:
+        ctx.ob(rule, m.key + ":levels", None, message=f"level loop no longer calls the three level routines (found {sorted(calls)})")
+        return
+    k1 = {k: norm_text(wire.strip_np_array(v)) for k, v in wire.kw(calls["threshold_mask_from"]).items()}
+    k2 = {k: norm_text(wire.strip_np_array(v)) for k, v in wire.kw(calls["iterated_array_jit_from"]).items()}
+    k3 = {k: norm_text(wire.strip_np_array(v)) for k, v in wire.kw(calls["array_at_sub_size_from"]).items()}
+    lower_a, higher_a = k1.get("array_lower_sub_2d"), k1.get("array_higher_sub_2d")
+    lower_m, higher_m = k2.get("threshold_mask_lower_sub"), k2.get("threshold_mask_higher_sub")
+    # top-level (unconditional) assignments of the loop body, in order
+    top = [(norm_text(n.targets[0]), norm_text(n.value), n) for n in loop.body if isinstance(n, ast.Assign) and len(n.targets) == 1]
+    adv_a = any(t == lower_a and v == higher_a and n.lineno > calls["iterated_array_jit_from"].lineno for t, v, n in top)
+    adv_m = any(t == lower_m and v == higher_m and n.lineno > calls["iterated_array_jit_from"].lineno for t, v, n in top)
+    ctx.ob(rule, m.key + ":advance-array", adv_a and ok_sched, where=m, node=loop, construct=f"lower={lower_a} higher={higher_a}; loop-body assignments {[(t, v) for t, v, _ in top]}",
+           message="after each level the 'previous level' array must be replaced by this level's array (otherwise every level is compared with the first one)")
+    ctx.ob(rule, m.key + ":advance-mask", adv_m, where=m, node=loop, construct=f"lower={lower_m} higher={higher_m}",
+           message="after each level the unresolved-pixel mask must be replaced by this level's threshold mask")
+    # the level is evaluated on the still-unresolved mask with this iteration's sub size; the higher array is that level's result
+    src = [v for t, v, n in top if t == higher_a]
+    ok = k3.get("mask") == lower_m and k3.get("sub_size") == norm_text(loop.target) and k3.get("func") == "func" and len(src) == 1 and "array_at_sub_size_from" in src[0] \
+        and k2.get("array_higher_sub_2d") == higher_a and k2.get("iterated_array") == "iterated_array"
+    ctx.ob(rule, m.key + ":level-inputs", ok, where=m, node=calls["array_at_sub_size_from"], construct=f"array_at_sub_size_from{k3}; iterated_array_jit_from{k2}",
+           message="each level must be evaluated on the still-unresolved mask at this iteration's sub size and its array used both for the threshold test and the fill")
+    # the first 'previous level' is the plain evaluation on the unmasked grid; the last level fills the remainder
+    first = [(t, v) for t, v, n in [(norm_text(n.targets[0]), norm_text(n.value), n) for n in m.node.body if isinstance(n, ast.Assign) and len(n.targets) == 1] if t == lower_a]
+    okf = len(first) >= 1 and first[0][1].startswith("func(obj, unmasked_grid") or (len(first) >= 2 and "Array2D(values=" + lower_a in first[1][1])
+    tail = [n for n in m.node.body if isinstance(n, ast.Assign) and n.lineno > loop.end_lineno and isinstance(n.value, ast.Call) and norm_text(n.value.func).endswith("array_at_sub_size_from")]
+    okl = len(tail) == 1 and norm_text(wire.kw(tail[0].value).get("sub_size")) == "self.sub_steps[-1]" and norm_text(wire.kw(tail[0].value).get("mask")) == lower_m
+    ctx.ob(rule, m.key + ":first-last", bool(okf) and okl, where=m, node=tail[0] if tail else m.node, construct=f"first {first[:2]}; last {norm_text(tail[0].value)[:120] if tail else None}",
+           message="the schedule must start from the sub-size-1 evaluation and end by filling the still-unresolved pixels at the last sub size")
+
+
 _O = "autoarray/operators/over_sampling/over_sample_util.py"
 _U = "autoarray/operators/over_sampling/uniform.py"
 _I = "autoarray/operators/over_sampling/iterate.py"
@@ -351,6 +401,8 @@ CONTROLS = [
     Control("over_sampled_grid drops origin", _U, in_func("OverSamplerUniform.over_sampled_grid", "            origin=self.mask.origin,\n", ""), "C09.wiring"),
     Control("fractional test uses >", _I, in_func("threshold_mask_via_arrays_jit_from", "if fractional_accuracy < fractional_accuracy_threshold:", "if fractional_accuracy > fractional_accuracy_threshold:"), "C09.iterate"),
     Control("ratio not inverted", _I, in_func("threshold_mask_via_arrays_jit_from", "                        if fractional_accuracy > 1.0:\n                            fractional_accuracy = 1.0 / fractional_accuracy\n", ""), "C09.iterate"),
+    Control("previous level never advanced (seed C09/1)", _I, in_func("OverSamplerIterate.array_via_func_from", "            array_sub_1 = array_higher_sub\n", "            array_lower_sub = array_higher_sub\n"), "C09.iterate"),
+    Control("last level on the full mask", _I, in_func("OverSamplerIterate.array_via_func_from", "            mask=threshold_mask_lower_sub,\n            sub_size=self.sub_steps[-1],", "            mask=self.mask,\n            sub_size=self.sub_steps[-1],"), "C09.iterate"),
     Control("decorator squares the result before binning", "autoarray/operators/over_sampling/decorator.py", in_func("over_sample", "return grid.over_sampler.binned_array_2d_from(array=result)", "return grid.over_sampler.binned_array_2d_from(array=result * 1.0001)"), "C09.decorator"),
     Control("twin: sub-step written as product", _O, in_func("grid_2d_slim_over_sampled_via_mask_from", "y_sub_step = pixel_scales[0] / (sub)", "y_sub_step = (1.0 / sub) * pixel_scales[0]"), None, twin=True),
 ]
